@@ -887,6 +887,72 @@ def cache_group(i, j, cr):
     return ('\n'.join(defs), [term])
 
 
+# =================================================================== (D)
+def copy_definitions_probe(backend, translator):
+    """Copies of an Automaton and operator definitions made after the copy:
+    a definition in one context must never change what a name means in the
+    other, nor the meaning of a BDD obtained earlier; `op[name]` must describe
+    `op_bdd[name]`.  Judged against plain Python evaluation over all
+    assignments.  Returns None or a description of what differs."""
+    import copy as _copy
+    import itertools as _it
+    aut = H.make_context(backend, translator, True)
+    aut.declare_variables(x='bool', y='bool', n=(0, 3))
+    aut.define('p == x /\\ y')
+    other = _copy.copy(aut)
+    body = {
+        ('aut', 'p'): lambda x, y, n: x and y,
+        ('other', 'p'): lambda x, y, n: x and y,
+        ('aut', 'q'): lambda x, y, n: x or n == 1,
+        ('other', 'q'): lambda x, y, n: (not x) and n == 2,
+        ('aut', 'r'): lambda x, y, n: not y,
+        ('other', 'r'): lambda x, y, n: y,
+        ('aut', 's'): lambda x, y, n: (x or n == 1) and not y,   # q /\ r
+        ('other', 's'): lambda x, y, n: (not x) and n == 2 and x and y,
+    }
+    ctxs = dict(aut=aut, other=other)
+
+    def table(c, u):
+        return [c.let(dict(x=x, y=y, n=n), u) == c.true
+                for x, y, n in _it.product([False, True], [False, True],
+                                           range(4))]
+
+    def want(who, name):
+        return [bool(body[who, name](x, y, n))
+                for x, y, n in _it.product([False, True], [False, True],
+                                           range(4))]
+    bad = []
+    aut.define('q == x \\/ (n = 1)')
+    early = aut.add_expr('q', with_ops=True)     # obtained before the rest
+    other.define('q == ~ x /\\ (n = 2)')
+    other.define('r == y')
+    aut.define('r == ~ y')
+    aut.define('s == q /\\ r')
+    other.define('s == q /\\ p')
+    if table(aut, early) != want('aut', 'q'):
+        bad.append('a BDD obtained earlier changed its meaning')
+    for who, c in ctxs.items():
+        for name in ('p', 'q', 'r', 's'):
+            try:
+                u = c.add_expr(name, with_ops=True)
+                t = table(c, u)
+                tb = table(c, c.op_bdd[name])
+                te = table(c, c.add_expr(c.op[name], with_ops=True))
+            except Exception as e:
+                bad.append(f'{who}.{name}: raised {e!r}')
+                continue
+            w = want(who, name)
+            if t != w:
+                bad.append(f'{who}: the name {name} does not mean its '
+                           'definition in this context')
+            if tb != w:
+                bad.append(f'{who}.op_bdd[{name}] is not the BDD of '
+                           f'{who}.op[{name}]')
+            if te != w:
+                bad.append(f'{who}.op[{name}] re-added is not its definition')
+    return bad or None
+
+
 # ================================================================ correspond
 def correspond(ctx):
     rng = ctx.rng
@@ -918,6 +984,19 @@ def correspond(ctx):
             meta.append(('prefix', idx, None))
     for k in range(0, len(pterms), 200):
         groups.append(('', pterms[k:k + 200]))
+    # (D) copies and definitions made after the copy
+    for be in ('autoref', 'cudd'):
+        for tr in ('recursive', 'iterative'):
+            try:
+                r = copy_definitions_probe(be, tr)
+            except Exception as e:
+                r = [f'raised {e!r}']
+            if r:
+                mism.append(Mismatch(
+                    'operator definitions made after copying an Automaton '
+                    'interfere between the copies: ' + '; '.join(r[:3]),
+                    dict(kind='copy_definitions', config=[be, tr]),
+                    impl=r, property_fails=True))
     # (B) context histories
     n_seq = 200 if thorough else 40
     maxlen = 12 if thorough else 8
@@ -1264,6 +1343,13 @@ def replay(path):
         bad = check_sequence([tuplify(o) for o in case['ops']])
         if bad:
             print('still fails:', bad)
+            return 1
+        print('passes')
+        return 0
+    if case.get('kind') == 'copy_definitions':
+        r = copy_definitions_probe(*case['config'])
+        if r:
+            print('still fails:', '; '.join(r))
             return 1
         print('passes')
         return 0
